@@ -15,6 +15,12 @@ import (
 var sanctionedSharing = map[string]string{
 	"(*py.List).M__iadd__|a":         "x += y on a list extends x in place and evaluates to x itself (Python data model, __iadd__)",
 	"(*py.List).M__imul__|a":         "x *= n on a list repeats x in place and evaluates to x itself (Python data model, __imul__)",
+	"(*py.Set).M__iand__|s":          "s &= t changes s in place and evaluates to s itself",
+	"(*py.Set).M__ior__|s":           "s |= t changes s in place and evaluates to s itself",
+	"(*py.Set).M__isub__|s":          "s -= t changes s in place and evaluates to s itself",
+	"(*py.Set).M__ixor__|s":          "s ^= t changes s in place and evaluates to s itself",
+	"(*py.Set).inPlace|s":            "helper of the in-place set operators: returns the receiver",
+	"(*py.Set).inPlace|res":          "helper of the in-place set operators: res is the set just built by the binary operator (never a user-visible operand); a non-set result (NotImplemented) is passed through",
 	"(*py.List).M__iter__|l":         "a list iterator is a live view of its list: mutations during iteration are visible (listiterobject holds it_seq)",
 	"(py.StringDict).GetDict|d":      "IGetDict accessor: the dict of a dict-backed object is that object",
 	"py.DictCheckExact|obj":          "type-check helper: returns its argument with the static type StringDict",
@@ -46,6 +52,7 @@ var sanctionedSharing = map[string]string{
 
 // sanctionedStores: functions that by contract make one argument's storage part of another argument's object.
 var sanctionedStores = map[string]string{
+	"(*py.Set).inPlace|s<-res":                                      "the in-place set operators adopt the table of the set just built by the binary operator, which nothing else refers to",
 	`py.init$FunctionType.Dict["__annotations__"]=Fset|self<-value`: "f.__annotations__ = d binds the attribute to that dict object (reference semantics of attribute assignment)",
 	`py.init$FunctionType.Dict["__defaults__"]=Fset|self<-value`:    "f.__defaults__ = t binds the attribute to that tuple object",
 	`py.init$FunctionType.Dict["__dict__"]=Fset|self<-value`:        "f.__dict__ = d binds the attribute to that dict object",
@@ -470,6 +477,21 @@ func runInPlaceIdentity(c *Ctx, r *Rep) {
 	}
 	if n == 0 {
 		r.undecided("inplace|none", token.NoPos, "no in-place operator method found on a mutable container type")
+	}
+	// a mutable container that defines the binary operator must define the in-place one too: without it `x op= y`
+	// falls back to the binary operator and rebinds the name to a new object, so aliases of x do not see the change
+	need := map[string][]string{"List": {"add", "mul"}, "Set": {"or", "and", "sub", "xor"}}
+	for _, tn := range []string{"List", "Set"} {
+		for _, op := range need[tn] {
+			bin := c.Method("py", tn, "M__"+op+"__")
+			if bin == nil {
+				continue // the binary operator itself is not provided
+			}
+			inp := c.Method("py", tn, "M__i"+op+"__")
+			r.check(inp != nil, "inplace|(*py."+tn+").M__i"+op+"__ exists", c.Decl(bin).Pos(),
+				"the in-place form of the operator is defined",
+				"*py."+tn+" defines __"+op+"__ but not __i"+op+"__: `x "+map[string]string{"add": "+", "mul": "*", "or": "|", "and": "&", "sub": "-", "xor": "^"}[op]+"= y` falls back to the binary operator and rebinds x to a new object instead of mutating it, so other references to the container do not see the change")
+		}
 	}
 	// the list iterator refers to the list object, not to a view of its item array taken when iter() was called
 	// (append during iteration must be seen; a view has a frozen length and goes stale when the array is reallocated)
